@@ -1,6 +1,6 @@
 """C18 (narrow): R-PURE, SPAN, DUMP, DATA-TAG, R-UNIT, ACCESSOR (T-LANE, R-IDX(ptr) on the image accessors)."""
 from nk import report
-from rules import state, listing, passes, idx, lane
+from rules import state, listing, passes, idx, lane, listaddr
 from . import common
 
 EXPLANATION = (
@@ -11,7 +11,7 @@ EXPLANATION = (
     'DATA-TAG: every data directive stores its bytes with the DL_DATA marker (never through add_bin*), so each emitted byte is shown by list_output or by the dump. '
     'R-UNIT: printed symbol values / `$` are the byte counter divided once by bytes_per_address. ACCESSOR (T-LANE + R-IDX(ptr) on core/Memory*): the multi-byte accessors through which the formatters read instructions compose '
     'exactly the bytes at address..address+n-1 in the selected byte order and never read through a pointer that can run past the page buffer. '
-    'Not decided: the text of 68 formatters against the output file.')
+    'LIST-ADDR: every line of the per-CPU listing formatters and range printers that starts with an address label shows data read at exactly that address (label with its division by the address unit removed == address argument of a Memory::read feeding the line, as linear forms). Not decided: the text of 68 formatters against the output file.')
 
 
 def run(tier, t0):
@@ -21,5 +21,5 @@ def run(tier, t0):
     mem.obs = [o for o in mem.obs if o.file in ('core/Memory.cpp', 'core/MemoryPage.h', 'core/Memory.h')]
     mem.floor = 4
     results = [listing.span(prog, cg), listing.dump(prog), listing.data_tag(prog), state.pure(prog, cg), passes.unit(prog), mem,
-               idx.ptr_into_array(prog, lambda f: f.file in ('core/Memory.cpp', 'core/Memory.h', 'core/MemoryPage.h', 'core/MemoryPage.cpp'))]
+               idx.ptr_into_array(prog, lambda f: f.file in ('core/Memory.cpp', 'core/Memory.h', 'core/MemoryPage.h', 'core/MemoryPage.cpp')), listaddr.list_addr(prog, 60)]
     return report.finish('C18', tier, results, EXPLANATION, [], common.TRUSTED, t0)
